@@ -6,6 +6,7 @@ valuation that selects it, the statements passed (effects) and how the region is
 program is executed: conditions are evaluated by this module over the valuation only.
 """
 import ast, copy
+from sa.util import clone as _clone
 from sa.util import AnalysisError
 class Unsupported(AnalysisError): pass
 class _Need(Exception):
@@ -45,7 +46,7 @@ def resolve_ifexp(node, val):
         def visit_IfExp(self, n):
             n = self.generic_visit(n)
             return n.body if _eval(n.test, val) else n.orelse
-    return ast.fix_missing_locations(T().visit(copy.deepcopy(node)))
+    return ast.fix_missing_locations(T().visit(_clone(node)))
 def _walk(stmts, val, eff):
     for s in stmts:
         if isinstance(s, ast.If): _walk(s.body if _eval(s.test, val) else s.orelse, val, eff)
